@@ -432,6 +432,12 @@ func allocDuring(f func()) uint64 {
 	return b.TotalAlloc - a.TotalAlloc
 }
 
+func totalAlloc() uint64 {
+	var m runtime.MemStats
+	runtime.ReadMemStats(&m)
+	return m.TotalAlloc
+}
+
 var boundaryLens = []int{0, 1, 2, 3, 4, 5, 6, 7, 8, 9, 399, 400, 401}
 
 func runCodec(t *testing.T, scAny any, trace bool) *Outcome {
